@@ -8,6 +8,7 @@ use crate::subject::{lists::*, map::*, merkle::*, mvreg::*, orswot::*, simple::*
 
 fn add<S: Subject>(jobs: &mut Vec<Box<dyn JobT>>, disc: Disc, q: u64, t: u64, ex: &[Class], floor: f64) {
     let pc = PlanCfg::new(Weights::mixed().with_probe(10).with_redeliver(10)).steps(6, 28).editors(2, 4);
+    let pc = pc.long_share(S::LONG);
     let ctx = if disc == Disc::Fifo { Ctx::new(disc).ex(ex).newest() } else { Ctx::new(disc).ex(ex) };
     jobs.push(mk_job(format!("{}/{:?}/ops+merges", S::name(), disc), q, t, pc, ctx, check_hybrid::<S>).floor("nontrivial", floor).boxed());
 }
@@ -15,17 +16,23 @@ fn add<S: Subject>(jobs: &mut Vec<Box<dyn JobT>>, disc: Disc, q: u64, t: u64, ex
 pub fn property() -> Property {
     let mut jobs: Vec<Box<dyn JobT>> = Vec::new();
     add::<SOrswot>(&mut jobs, Disc::Causal, 18000, 200_000, &[], 0.03);
+    add::<SOrswotBig>(&mut jobs, Disc::Causal, 4500, 50000, &[], 0.015);
     add::<SMVReg>(&mut jobs, Disc::Causal, 12000, 100_000, &[], 0.03);
     add::<SMVReg>(&mut jobs, Disc::Any, 12000, 100_000, &[], 0.03);
     add::<MapOrswot>(&mut jobs, Disc::Causal, 18000, 200_000, &[Class::T1], 0.03);
+    add::<MapOrswotBig>(&mut jobs, Disc::Causal, 4500, 50000, &[Class::T1], 0.015);
     add::<MapMapOrswot>(&mut jobs, Disc::Causal, 12000, 100_000, &[Class::T1], 0.03);
     add::<MapMVReg>(&mut jobs, Disc::Causal, 18000, 200_000, &[Class::T1, Class::T2, Class::T5], 0.03);
+    add::<MapMVRegBig>(&mut jobs, Disc::Causal, 4500, 50000, &[Class::T1, Class::T2, Class::T5], 0.015);
     add::<MapMapMVReg>(&mut jobs, Disc::Causal, 12000, 100_000, &[Class::T1, Class::T2, Class::T5], 0.03);
     // operands that are NOT causally closed (they hold pending removes); the comparison with the ops-only
     // twin is made whenever the merged / resulting knowledge is causally closed
     add::<SOrswot>(&mut jobs, Disc::Fifo, 18000, 200_000, &[], 0.02);
+    add::<SOrswotBig>(&mut jobs, Disc::Fifo, 4500, 50000, &[], 0.01);
     add::<MapOrswot>(&mut jobs, Disc::Fifo, 18000, 200_000, &[Class::T1, Class::T3], 0.02);
+    add::<MapOrswotBig>(&mut jobs, Disc::Fifo, 4500, 50000, &[Class::T1, Class::T3], 0.01);
     add::<MapMVReg>(&mut jobs, Disc::Fifo, 18000, 200_000, &[Class::T1, Class::T2, Class::T2b, Class::T3, Class::T5, Class::T6], 0.02);
+    add::<MapMVRegBig>(&mut jobs, Disc::Fifo, 4500, 50000, &[Class::T1, Class::T2, Class::T2b, Class::T3, Class::T5, Class::T6], 0.01);
     add::<SGList>(&mut jobs, Disc::Any, 9000, 60_000, &[], 0.03);
     add::<SMerkle>(&mut jobs, Disc::Any, 9000, 60_000, &[], 0.03);
     add::<SGCounter>(&mut jobs, Disc::Any, 6000, 40_000, &[], 0.03);
